@@ -264,6 +264,14 @@ func (s *Sandbox) imageImportTar(ls *lua.LState) int {
 	}
 	tgt := s.checkReference(ls, 1)
 	file := ls.CheckString(2)
+	s.log.Debug("Import image",
+		slog.String("script", s.name),
+		slog.String("target", tgt.r.CommonName()),
+		slog.String("file", file),
+		slog.Bool("dry-run", s.dryRun))
+	if s.dryRun {
+		return 0
+	}
 	if s.throttle != nil {
 		done, err := s.throttle.Acquire(s.ctx, struct{}{})
 		if err != nil {
